@@ -504,6 +504,90 @@ func (w *World) opCanon(op *Op) {
 	}
 }
 
+// ---- the same entries at another branch factor, in the same process (C09 / C04 / C14) ----
+
+// opReBF rebuilds tree T's entries in a fresh tree with another branch factor (op.N), persists it
+// and judges the result with the layers of the published rule at that branch factor. Anything
+// the library remembers about a key from the first branch factor must not leak into the second.
+func (w *World) opReBF(op *Op) {
+	t := w.tree(op.T)
+	if t == nil || w.cfg.InMemory || t.unsure || !w.decodable() || w.cfg.Marshaler != "json" || op.N < 2 || uint(op.N) == w.cfg.BF {
+		return
+	}
+	if !w.sanity(t, "pre-rebf") {
+		return
+	}
+	bf := uint(op.N)
+	cfg2 := w.cfg
+	cfg2.BF = bf
+	disk := NewSimDisk("sim://rebf")
+	var m *mast.Mast
+	r := guard(func() error {
+		var err error
+		m, err = cfg2.NewRoot().LoadMast(ctx, cfg2.RemoteConfig(w.kd, w.vd, disk, nil, w.cb))
+		if err != nil {
+			return err
+		}
+		for _, e := range t.model.Entries() {
+			if err := m.Insert(ctx, w.kd.Key(e.K), w.vd.Val(e.V)); err != nil {
+				return err
+			}
+		}
+		return nil
+	})
+	if r.bad() {
+		w.failFor("C01", "insert-fails", "rebuilding at branch factor %d: %s", bf, r)
+		return
+	}
+	fr := w.schedMakeRoot(m, disk, 0, 0, "", false)
+	if w.monitorTripped(disk) {
+		return
+	}
+	if fr.res.bad() || fr.deadlock {
+		w.failFor("C01", "persist-fails", "persist at branch factor %d: %s", bf, fr.res)
+		return
+	}
+	root := fr.root
+	indep := func(k int) int { return IndepLayer(w.kd.Key(k), bf) }
+	wr, err := WalkPersisted(func(nm string) ([]byte, bool) { return disk.Bytes(nm) }, w.cfg.Format, rootLink(root), int(root.Height), w.keyIndexFromBody, w.kd.Rank, indep)
+	if err != nil {
+		w.st.Truncated = "format-drift: " + err.Error()
+		w.st.Skipped++
+		return
+	}
+	w.st.OracleEvals++
+	w.st.Probes["rebuilt-at-another-branch-factor"]++
+	switch w.prop {
+	case "C09":
+		if len(wr.Issues) > 0 {
+			is := wr.Issues[0]
+			w.fail("shape/"+is.Clause+"/second-branch-factor", "the same entries rebuilt in this process at branch factor %d (first used at %d): %s", bf, w.cfg.BF, is.Detail)
+			return
+		}
+		if wr.Entries != int(root.Size) {
+			w.fail("shape/root-size/second-branch-factor", "Root.Size=%d but %d entries reachable (branch factor %d)", root.Size, wr.Entries, bf)
+		}
+	case "C04", "C14":
+		ref := BuildRef(t.model.Entries(), indep, bf)
+		if int(root.Height) != ref.H {
+			w.failFor(w.prop, "height-at-second-branch-factor", "entries rebuilt at branch factor %d: Root.Height=%d, the published layer rule gives height %d", bf, root.Height, ref.H)
+			return
+		}
+		if s := CompareShape(wr.Root, ref.Root); s != "" {
+			w.failFor(w.prop, "shape-at-second-branch-factor", "entries rebuilt at branch factor %d differ from the reference tree: %s", bf, s)
+			return
+		}
+		if w.prop == "C14" && w.cfg.CmpScale == 0 {
+			kbody := func(k int) []byte { b, _ := json.Marshal(w.kd.Key(k)); return b }
+			vbody := func(v int) []byte { b, _ := json.Marshal(w.vd.Val(v)); return b }
+			ref.Encode(w.cfg.Format, kbody, vbody)
+			if ref.RootName() != rootLink(root) {
+				w.fail("root-name-differs-from-independent-prediction/second-branch-factor", "entries rebuilt at branch factor %d: root %q, predicted %q", bf, rootLink(root), ref.RootName())
+			}
+		}
+	}
+}
+
 // ---- entry diff (C06) ----
 
 func (w *World) diffRec(kind string, k, oldV, newV interface{}) string {
